@@ -696,7 +696,11 @@ func cmpAV(op token.Token, x, y AV) (bool, bool) {
 
 // refine narrows the abstract value of cond's operands on the taken edge.
 func (e *OrdEngine) refine(cond ssa.Value, truth bool, fr *Frame, f *Fact) {
-	e.setVal(cond, boolAV(truth), f)
+	nb := boolAV(truth)
+	if old := e.eval(cond, fr, f); old.K == avUnknown {
+		nb.Tag, nb.Ev = old.Tag, old.Ev // keep provenance
+	}
+	e.setVal(cond, nb, f)
 	switch c := cond.(type) {
 	case *ssa.UnOp:
 		if c.Op == token.NOT {
@@ -1149,6 +1153,20 @@ func (e *OrdEngine) eofBranch(cx *Ctx, ifi *ssa.If, truth bool, f *Fact) {
 	}
 }
 
+// selfUpdate: does st store arithmetic on a load of the very address it stores to?
+func selfUpdate(st *ssa.Store) bool {
+	bo, ok := st.Val.(*ssa.BinOp)
+	if !ok {
+		return false
+	}
+	for _, op := range []ssa.Value{bo.X, bo.Y} {
+		if u, ok := op.(*ssa.UnOp); ok && u.Op == token.MUL && u.X == st.Addr {
+			return true
+		}
+	}
+	return false
+}
+
 // boundedCounter: an integer phi is worth tracking only when it is compared (itself or +const) with a
 // value that is a known small integer in the current fact (a loop over a short literal list).
 func (e *OrdEngine) boundedCounter(phi *ssa.Phi, fr *Frame, f *Fact) bool {
@@ -1301,7 +1319,11 @@ func (e *OrdEngine) step(ins ssa.Instruction, fr *Frame, f *Fact) []*Fact {
 	case *ssa.Store:
 		pa := e.eval(x.Addr, fr, f)
 		if pa.K == avCell {
-			e.storeCell(cellKey{pa.Cell, pa.Path}, e.eval(x.Val, fr, f), f)
+			va := e.eval(x.Val, fr, f)
+			if va.K == avInt && selfUpdate(x) {
+				va = AV{Tag: va.Tag} // x++ / x += k on a memory cell: a counter, not tracked (widening)
+			}
+			e.storeCell(cellKey{pa.Cell, pa.Path}, va, f)
 		}
 		if e.Spec.Instr != nil {
 			e.Spec.Instr(cx, ins, f)
